@@ -404,7 +404,12 @@ DFconvert(uint8 *source, uint8 *dest, int ntype, int sourcetype, int desttype, i
         return 0;
     }
 
-    num_elm = (uint32)size / 4;
+    /* `size` counts bytes; the conversion routines take a number of elements */
+    if (DFKNTsize((int32)ntype) <= 0) {
+        HERROR(DFE_BADCONV);
+        return FAIL;
+    }
+    num_elm = (uint32)size / (uint32)DFKNTsize((int32)ntype);
 
     /* Check to see if they want to convert numbers in from the disk */
     if (sourcetype == DFNTF_IEEE && (desttype == DFNTF_VAX || desttype == DFNTF_CRAY || desttype == DFNTF_PC))
